@@ -94,6 +94,17 @@ impl<'a> LuaGen<'a> {
         if va {
             ps.push("...".to_owned());
         }
+        // one list in five is laid out so that the parameter tokens carry trivia of their own: padding inside the parentheses,
+        // a comment after a name, one parameter per line (a name is its token, never the blanks and comments around it)
+        if !ps.is_empty() && self.r.chance(1, 5) {
+            self.bump("params_with_trivia");
+            return match self.r.below(4) {
+                0 => (format!(" {} ", ps.join(" , ")), va),
+                1 => (ps.iter().map(|p| format!("{p} --[[ p ]]")).collect::<Vec<_>>().join(", "), va),
+                2 => (format!("\n    {}\n", ps.join(",\n    ")), va),
+                _ => (format!("--[[ first ]] {}", ps.join(", --[[ next ]] ")), va),
+            };
+        }
         (ps.join(", "), va)
     }
     fn function_expr(&mut self, depth: usize) -> String {
